@@ -248,11 +248,11 @@ func genOp(r *Rng, s *snap, cnt *Counters) op {
 		return op{Kind: "donate", U: u, D: d, A: x.String()}
 	default:
 		// third-party borrow (negative) / repay (positive) in hard; sometimes drains the liquidity
-		liq := s.bal[accHard][dUsdx]
+		liq := s.hfree
 		x := new(big.Int)
 		switch r.Intn(4) {
 		case 0:
-			x.Neg(new(big.Int).Sub(liq, bi(int64(r.Intn(2000)))))
+			x.Neg(new(big.Int).Sub(liq, bi(int64(r.Intn(3000)))))
 		case 1:
 			x.Neg(new(big.Int).Quo(liq, bi(int64(2+r.Intn(5)))))
 		case 2:
